@@ -7,10 +7,12 @@ inductive HOp where
   | s
   | r
   | rd (n : Nat)
+  | z
 
 def parseHOp (s : String) : Option HOp :=
   if s == "s" then some .s
   else if s == "r" then some .r
+  else if s == "z" then some .z
   else if s.startsWith "rd" then (s.drop 2).toString.toNat?.map .rd
   else if s.startsWith "w" then (s.drop 1).toString.toNat?.map .w
   else none
@@ -24,6 +26,7 @@ structure Mach (σ : Type) where
   sum : σ → Except Panic Bytes
   reset : σ → σ
   read : Option (σ → Nat → Except Panic (σ × Bytes))
+  sizes : σ → Nat × Nat     -- Size(), BlockSize()
 
 def showPanic : Panic → String
   | .runtime => "panic:runtime"
@@ -36,11 +39,15 @@ def runOps (M : Mach σ) : σ → List HOp → Bytes → List String → Option 
     if n > data.length then none else
     match M.write st (data.take n) with
     | .ok st' => runOps M st' rest (data.drop n) acc
+    | .error .api => runOps M st rest (data.drop n) ("panic:api" :: acc)   -- raised before anything changes: go on
     | .error e => some (st, (showPanic e :: acc).reverse)
   | st, .s :: rest, data, acc =>
     match M.sum st with
     | .ok out => runOps M st rest data (toHex out :: acc)
+    | .error .api => runOps M st rest data ("panic:api" :: acc)
     | .error e => some (st, (showPanic e :: acc).reverse)
+  | st, .z :: rest, data, acc =>
+    runOps M st rest data (s!"z{(M.sizes st).1}.{(M.sizes st).2}" :: acc)
   | st, .r :: rest, data, acc => runOps M (M.reset st) rest data acc
   | st, .rd n :: rest, data, acc =>
     match M.read with
@@ -53,10 +60,11 @@ def runOps (M : Mach σ) : σ → List HOp → Bytes → List String → Option 
 def showOuts (l : List String) : String := if l.isEmpty then "-" else ",".intercalate l
 
 def b2Mach (A : Alg) : Mach (Digest A) :=
-  { write := writeE, sum := sumE, reset := Digest.reset, read := none }
+  { write := writeE, sum := sumE, reset := Digest.reset, read := none, sizes := fun d => (d.sizeOf, d.blockSizeOf) }
 
 def kMach : Mach KState :=
-  { write := KState.write, sum := KState.sum, reset := KState.reset, read := some KState.read }
+  { write := KState.write, sum := KState.sum, reset := KState.reset, read := some KState.read,
+    sizes := fun d => (d.outputLen, d.rate) }
 
 /-- bytes consumed by the `w` ops of a list -/
 def consumed : List HOp → Nat
